@@ -12,6 +12,7 @@ add <cfg>                               conf.add_new_items(flat dict, "later")  
 reg <name> <cfg>                        conf.register_color_conf_component(cfg, name) -> ok | err E
 cls <k>[@<name>] <parents|none> <accessors|none> <cfg|nodefaults>   define palette class k -> ok
 pal <k> <0|1>                           P_k(conf, no_color=…), every accessor rendered -> ok a=prefix;… | err E
+sub <k> <j> <0|1>                       P_k(conf, nc).get_sub_palette(P_j) (k declared `cls k+`) -> ok a=prefix;… | err E
 get <id>                                conf.get_color(id)                            -> ok <prefix>
 ids                                     sorted ids with R(esolved)/U(nresolved)       -> ok id:R;…
 rep                                     conf.make_report(): per id status and colour  -> ok id:R:prefix;id:U:-;…
@@ -30,6 +31,7 @@ structure DrvState where
   cur : Nat            -- the configuration the lines without an index act on
   dead : Bool
   classes : List ClassDef
+  compound : List Nat := []   -- classes derived from `CompoundPalette` (they cannot be synced)
 
 def cpsOfChars (cs : List Char) : Option Str :=
   if cs = ['-'] then some [] else
@@ -131,10 +133,13 @@ def doOp (st : DrvState) (w : MWorld) (op : MOp) : DrvState × String :=
 
 def handle (st : DrvState) (line : String) : DrvState × String :=
   match splitWs line with
-  | ["reset"] => (⟨⟨[], [], none, []⟩, 0, false, []⟩, "ok")
+  | ["reset"] => (⟨⟨[], [], none, []⟩, 0, false, [], []⟩, "ok")
   | "cls" :: k :: ps :: accs :: cfg =>
     -- `k` or `k@<name>`: the Python name of the class (no meaning in the model: a class is its index)
-    match (k.splitOn "@").head?.bind (·.toNat?), parseParents ps, parseAccessors accs with
+    -- a `+` after the index: the class derives from `CompoundPalette` (with an empty `SUB_PALETTES_MAP`)
+    let ktok := ((k.splitOn "@").head?.getD "").toList
+    let isCompound := ktok.contains '+'
+    match parseDigits 0 false (ktok.filter (· ≠ '+')), parseParents ps, parseAccessors accs with
     | some k, some ps, some accs =>
       let dflt : Option (Option Cfg) :=
         if cfg = ["nodefaults"] then some none else (cfgOfTokens cfg).map some
@@ -143,7 +148,8 @@ def handle (st : DrvState) (line : String) : DrvState × String :=
         if k ≠ st.classes.length ∨ ps.any (fun p => p ≥ k) then (st, "bad-op") else
         let accessors := accs.foldl (fun a kv => dictSet a kv.1 kv.2)
           [(['t', 'e', 'x', 't'], Gen.C14.dfltId)]
-        ({ st with classes := st.classes ++ [⟨ps, d, accessors⟩] }, "ok")
+        ({ st with classes := st.classes ++ [⟨ps, d, accessors⟩],
+                   compound := if isCompound then k :: st.compound else st.compound }, "ok")
       | none => (st, "bad-op")
     | _, _, _ => (st, "bad-op")
   | cmd :: args =>
@@ -173,6 +179,19 @@ def handle (st : DrvState) (line : String) : DrvState × String :=
       | some _, some k, some nc =>
         if k < st.classes.length then doOp st w (.on st.cur (.pal k nc)) else (st, "bad-op")
       | _, _, _ => (st, "bad-op")
+    | "sub", [k, j, nc] =>
+      -- `P_k(conf, nc).get_sub_palette(P_j)` for a compound class k: the compound palette is obtained from the
+      -- configuration (as `pal k nc`), and it hands out `P_j(conf, nc)` (as `pal j nc`); the sub-palette it remembers
+      -- lives as long as the compound palette object, i.e. as long as the configuration's cache entry
+      match w.confs[st.cur]?, k.toNat?, j.toNat?, bool01 nc with
+      | some _, some k, some j, some nc =>
+        -- (a no-colour compound palette is one object per class that stays bound to the configuration it was first
+        -- built for: with several configurations its sub-palettes belong to that one — not modelled)
+        if k < st.classes.length ∧ j < st.classes.length ∧ st.compound.contains k ∧ (nc = false ∨ w.confs.length ≤ 1) then
+          match doOp st w (.on st.cur (.pal k nc)) with
+          | (st1, r) => if st1.dead then (st1, r) else doOp st1 st1.world (.on st.cur (.pal j nc))
+        else (st, "bad-op")
+      | _, _, _, _ => (st, "bad-op")
     | "get", [id] =>
       match w.confs[st.cur]?, cpsOf id with
       | some c, some id => (st, "ok " ++ showCps (getColor c id))
@@ -192,7 +211,7 @@ def handle (st : DrvState) (line : String) : DrvState × String :=
     | "syn", [k] =>
       match k.toNat? with
       | some k =>
-        if k < st.classes.length ∧ w.confs ≠ [] then
+        if k < st.classes.length ∧ w.confs ≠ [] ∧ !st.compound.contains k then
           -- before the first `glob` the palette shows another configuration's colours: nothing to compare
           if w.glob.isSome then doOp st w (.syn k) else ((doOp st w (.syn k)).1, "ok pre-global")
         else (st, "bad-op")
@@ -205,4 +224,4 @@ def handle (st : DrvState) (line : String) : DrvState × String :=
     | _, _ => (st, "bad-op")
   | [] => (st, "bad-op")
 
-def main : IO Unit := runS handle (⟨⟨[], [], none, []⟩, 0, false, []⟩ : DrvState)
+def main : IO Unit := runS handle (⟨⟨[], [], none, []⟩, 0, false, [], []⟩ : DrvState)
